@@ -82,6 +82,11 @@ inductive Ev where
   | tryBegin
   | tryExcept
   | tryEnd
+  /-- in a function body: `global n; n = …` (also `globals()["n"] = …`): binds the module's global
+  at call time -/
+  | gbind (n : Name)
+  /-- in a function body: `global n; del n`: unbinds the module's global at call time -/
+  | gunbind (n : Name)
   deriving DecidableEq, Repr, Inhabited
 
 /-- a function, method or lambda body (call-time code) -/
@@ -273,7 +278,7 @@ def layoutOk (F : Facts) : Bool :=
     (M.all.getD []).all (fun n => Nat.blt n F.nNames) &&
     let evOk : Ev → Bool := fun e =>
       match e with
-      | .bind n | .unbind n | .bindMod n _ => Nat.blt n F.nNames
+      | .bind n | .unbind n | .bindMod n _ | .gbind n | .gunbind n => Nat.blt n F.nNames
       | .fromName _ n a => Nat.blt n F.nNames && Nat.blt a F.nNames
       | _ => true
     M.evs.all evOk && M.funcs.all (fun f => f.evs.all evOk))
@@ -479,6 +484,11 @@ def execEvs (F : Facts) (imp : Imp) (sc : Scope) :
     | .tryBegin => execEvs F imp sc rest .run saved loc σ
     | .tryExcept => execEvs F imp sc rest (.skipping 0 0) saved loc σ
     | .tryEnd => execEvs F imp sc rest .run saved loc σ
+    | .gbind n => execEvs F imp sc rest .run saved loc (σ.set F sc.mod n (some .obj))
+    | .gunbind n =>
+      match σ.get F sc.mod n with
+      | some _ => execEvs F imp sc rest .run saved loc (σ.set F sc.mod n none)
+      | none => .error (.nameError sc.mod sc.fn n)
 
 /-- the import machinery: `importMod F k m σ` makes sure `m` is in `sys.modules`, executing its
 code if it is not (`k` bounds the nesting depth of imports).  If the code raises an
